@@ -184,7 +184,10 @@ def run_layouts_agree(case):
         snaps[layout] = iomodel.tg_to_data(tg)
     if not (snaps["long"] == snaps["elan"] == snaps["short"]):
         raise Violation("layouts-disagree:long", f"long {snaps['long']} elan {snaps['elan']} short {snaps['short']}")
-    return {"classes": ["agree"], "nontrivial": any(t["entries"] for t in data["tiers"])}
+    cl = ["agree"]
+    if any(e[-1] != "" and e[-1].strip() == "" for t in data["tiers"] for e in t["entries"]):
+        cl.append("white_space_only_label")
+    return {"classes": cl, "nontrivial": any(t["entries"] for t in data["tiers"])}
 
 
 @st.composite
@@ -210,6 +213,19 @@ def cases(draw):
     }
 
 
+@st.composite
+def agree_cases(draw):
+    """As cases(); in addition some labels consist of white space only. Whether such a label counts as empty is not
+    pinned by the statement (the text readers trim it and then treat it as empty, the JSON reader keeps it), so the
+    'reader' check does not generate them - but the long and the short reading of one datum must still agree."""
+    case = draw(cases())
+    if draw(st.integers(0, 2)) == 0:
+        for t in case["data"]["tiers"]:
+            t["entries"] = [tuple(list(e[:-1]) + [draw(st.sampled_from([" ", "\n", " \t", "  "]))]) if draw(st.integers(0, 2)) == 0 else e
+                            for e in t["entries"]]
+    return case
+
+
 def _known_keyword(check, case, v):
     for layout, parser in (("long", "long"), ("elan", "long"), ("short", "short")):
         if f":{layout}" in v.clause and iomodel.reader_confusion(case["data"], parser):
@@ -222,7 +238,7 @@ def _known_keyword(check, case, v):
 
 CHECKS = [
     Check("reader", run_case, strategy=lambda tier: cases(), quick_n=1800, thorough_n=12000, fuzz_runs=20000),
-    Check("layouts_agree", run_layouts_agree, strategy=lambda tier: cases(), quick_n=400, thorough_n=3000),
+    Check("layouts_agree", run_layouts_agree, strategy=lambda tier: agree_cases(), quick_n=400, thorough_n=3000),
 ]
 
 
